@@ -12,14 +12,14 @@ import (
 // Univ is a finite universe of values of one static type together with the
 // real collator of that type.
 type Univ struct {
-	Name   string
-	N      int
-	rank   func(i, j int) age.Rank
-	comp   func(i, j int) bool
-	fresh  func()
-	Val    func(i int) any
-	noise  func() // an unrelated comparison on the same collator
-	depth  func() int
+	Name  string
+	N     int
+	rank  func(i, j int) age.Rank
+	comp  func(i, j int) bool
+	fresh func()
+	Val   func(i int) any
+	noise func() // an unrelated comparison on the same collator
+	depth func() int
 }
 
 // MakeUniv binds a typed universe to age.Collator[T].
